@@ -22,6 +22,7 @@ R(p) == Root \o p
 RegFiles == {R(<<"a.c">>), R(<<"b.h">>), R(<<"notes.txt">>), R(<<"noext">>), R(<<"a b.c">>), R(<<"[x].c">>), R(<<"a*.c">>),
              R(<<".hidden.c">>), R(<<"d1", "a.c">>), R(<<"d1", "ab.c">>), R(<<"d1", "d2", "a.c">>), R(<<"d1", "d2", "deep.h">>),
              R(<<"build", "gen.c">>), R(<<"a", "a.c">>), R(<<"src.c", "in.c">>), R(<<"d1", "Makefile">>),
+             R(<<".c">>), R(<<"d1", ".h">>),       \* hidden files whose whole name looks like an extension: no extension at all
              <<"B", "root2", "x.c">>, <<"B", "outside", "o.c">>}
 Dirs == {Root, R(<<"d1">>), R(<<"d1", "d2">>), R(<<"build">>), R(<<"a">>), R(<<"src.c">>), <<"B", "root2">>, <<"B", "outside">>}
 Links == [p \in {R(<<"lnk_d1">>), R(<<"la.c">>), R(<<"lout.c">>), R(<<"dangling.c">>), R(<<"lnk_out">>), R(<<"d1", "back">>)} |->
@@ -101,6 +102,7 @@ Spell(p) == {p} \cup (IF Prefix(R(<<"d1">>), p) THEN {R(<<"lnk_d1">>) \o Drop(p,
 SpellingIndependent == \A p \in RegFiles : \A s \in Spell(p) : Member(s) = Member(p)
 NeverMembers == ~Member(R(<<"lout.c">>)) /\ ~Member(R(<<"dangling.c">>)) /\ ~Member(R(<<"lnk_out", "o.c">>))
                 /\ ~Member(<<"B", "root2", "x.c">>) /\ ~Member(R(<<"src.c">>)) /\ ~Member(R(<<"notes.txt">>)) /\ ~Member(R(<<"noext">>))
+                /\ ~Member(R(<<".c">>)) /\ ~Member(R(<<"d1", ".h">>))
 
 Txt == [i \in 1..Len(pats) |-> pats[i].txt]
 Hash == (Len(pats) * 3 + Cardinality(Members)) % NShards
